@@ -119,6 +119,8 @@ class ZLZ:
     def gen(r):
         alpha = r.choice(["ab", "abcd", "xyzé中"])
         p = {"max_dict_size": r.choice([3, 17, 1 << 16]), "max_columns": r.choice([None, None, 7, 64, 1 << 16]), "random_state": r.randint(0, 9)}
+        if p["max_columns"] is None and r.random() < 0.4:
+            p["base_dictionary"] = {ch: r.randint(1, 3) for ch in alpha[:2]}
         return {"zoo": "LZ", "params": p, "train": _strings(r, alpha), "test": _strings(r, alpha + "q") + [""]}
 
     @staticmethod
@@ -175,7 +177,7 @@ class ZKDE:
     def gen(r):
         tr = _numseqs(r, minlen=3)
         p = {"bandwidth": r.choice([0.3, 0.7, 2.0]), "n_components": r.randint(2, 9), "evaluation_grid_strategy": r.choice(["uniform", "density"])}
-        return {"zoo": "KDE", "params": p, "train": tr, "test": _numseqs(r, lo=-5, hi=15, minlen=1)}
+        return {"zoo": "KDE", "params": p, "train": tr, "test": _numseqs(r, lo=-5, hi=15, minlen=1) + [[round(r.uniform(0, 10), 3)]]}
 
     @staticmethod
     def make(c, V):
@@ -526,7 +528,7 @@ class ZTree:
         if r.random() < 0.3:
             p["mask_string"] = "[M]"
             p["min_occurrences"] = 2
-        return {"zoo": "Tree", "params": p, "train": c["trees"], "test": c2["trees"]}
+        return {"zoo": "Tree", "params": p, "train": c["trees"], "test": c2["trees"], "adj": r.choice(["csr", "csr", "lil", "csr-int", "lil-int"])}
 
     @staticmethod
     def make(c, V, n_items=None):
@@ -535,7 +537,7 @@ class ZTree:
     @staticmethod
     def data(c, which, fit=None):
         from vv.props.C15 import to_adj
-        return [(to_adj(t["par"]), np.array(t["labels"])) for t in c[which]], {}
+        return [(to_adj(t["par"], c.get("adj", "csr")), np.array(t["labels"])) for t in c[which]], {}
 
 
 def make(c, V, n_items=None):
